@@ -660,6 +660,23 @@ func applyDirSomewhere(r *core.Rand, items []*m.Item, d m.Dir) string {
 // reference checker reports them as Extra). They are used where only order independence is
 // judged (C17), never for C07's verdicts.
 var ExtraFaults = []Fault{
+	{"root-not-object", func(r *core.Rand, items []*m.Item) ([]*m.Item, []string, bool) {
+		// a root operation type that is not an object type (the loader does not look at the kind; the property does not list it)
+		var sch *m.Item
+		for _, it := range items {
+			if it.Kind == "schema" && len(it.OpTypes) > 0 {
+				sch = it
+			}
+		}
+		other := itemsOfKind(items, false, "interface", "union", "enum", "input", "scalar")
+		if sch == nil || len(other) == 0 {
+			return nil, nil, false
+		}
+		o := pickItem(r, other)
+		i := r.Intn(len(sch.OpTypes))
+		sch.OpTypes[i].Type = o.Name
+		return items, []string{o.Name}, true
+	}},
 	{"extension-kind-mismatch", func(r *core.Rand, items []*m.Item) ([]*m.Item, []string, bool) {
 		it := pickItem(r, itemsOfKind(items, false, "type", "interface", "input", "enum", "union", "scalar"))
 		if it == nil {
